@@ -91,8 +91,47 @@ impl Check for C10 {
             };
             let pre_ranges: Vec<Range> = tree.included_ranges();
             let snapshot = tree.clone();
+            // hidden nodes, look-ahead bytes and has-changes of every subtree, through the runtime's dot dump
+            let use_dot = step == 0 && !with_ranges && text.len() <= 4000 && t.pct(30);
+            let scratch = lang::work_dir().join(format!("c10-{}.dot", std::process::id()));
+            let dot_pre = if use_dot { crate::model::dot::dot_of(&tree, &scratch) } else { None };
+            if let Some(d) = &dot_pre {
+                ctx.label("dot");
+                // a parent's look-ahead reaches as far as the furthest look-ahead of its children
+                for (i, n) in d.iter().enumerate() {
+                    if n.children.is_empty() {
+                        continue;
+                    }
+                    let want = n.children.iter().map(|&c| d[c].end + d[c].lookahead).max().unwrap();
+                    if n.end + n.lookahead != want {
+                        ctx.fail("C10:lookahead_summary", format!("subtree #{i} {:?} {}..{} has lookahead-bytes {} (reaches {}), its children's look-ahead reaches {}\nlang={lname} text={:?}", n.label, n.start, n.end, n.lookahead, n.end + n.lookahead, want, show_bytes(&text.bytes, 300)));
+                        return;
+                    }
+                }
+            }
             let ie = text.apply(&edit);
             tree.edit(&ie);
+            if let Some(d) = &dot_pre {
+                if let Some(post) = crate::model::dot::dot_of(&tree, &scratch) {
+                    ctx.out.inner += 1;
+                    if post.len() == d.len() {
+                        let (s, o) = (edit.start, edit.old_end);
+                        for (i, n) in d.iter().enumerate() {
+                            // the change lies inside the node's text or inside the bytes it looked at
+                            // (text inserted exactly at a node's start - padding included - belongs to the previous node)
+                            let touches = (n.start < s && s < n.end + n.lookahead) || (s <= n.start && n.start < o);
+                            if touches && !post[i].has_changes {
+                                let sig = if s >= n.end { "C10:has_changes_missing:lookahead" } else { "C10:has_changes_missing:hidden_or_visible" };
+                                ctx.fail(sig, format!("edit {s}..{o} -> {:?}: subtree #{i} {:?} spans {}..{} and looked ahead {} bytes, but has-changes is 0 after the edit\nlang={lname} text before={:?}", show_bytes(&edit.inserted, 30), n.label, n.start, n.end, n.lookahead, show_bytes(&old_text.bytes, 300)));
+                                return;
+                            }
+                        }
+                    } else {
+                        ctx.fail("C10:shape_changed:dot", format!("the edit changed the number of subtrees: {} -> {}", d.len(), post.len()));
+                        return;
+                    }
+                }
+            }
             ctx.out.inner += 1;
             let e = XTree::build(&tree);
             let s = edit.start;
